@@ -27,28 +27,35 @@ def run(tier, seed):
     rep.add("states", r.distinct)
     rep.add("transitions", r.generated)
     per = sz["n"] // sz["files"]
-    jobs = [(k, os.path.join(wd, f"csp.{k}.ndjson")) for k in range(sz["files"])]
+    jobs = [(k, os.path.join(wd, f"csp.{k}.ndjson"), None) for k in range(sz["files"])]
+    # exhaustive small scope: the complete two-variable family of MC_Csp.tla around the value -1 / the lower preference window edge
+    # (-2..2) and around the upper edge (4..8), solved by the real solver: all of it (thorough) or every 64th system (quick)
+    nparts, stride = (1, 64) if tier == "quick" else (16, 16)
+    for fam, (lo, hi) in enumerate([(-2, 2), (4, 8)]):
+        for part in range(nparts):
+            off = (seed + fam) % stride if tier == "quick" else part
+            jobs.append((1000 + fam * 100 + part, os.path.join(wd, f"cspenum.{fam}.{part}.ndjson"), ["enum", str(lo), str(hi), str(stride), str(off)]))
 
     def gen(j):
-        k, out = j
-        p = vlib.sh([os.path.join(bdir, "h_csp"), str(seed * 1000 + k), str(per), out], timeout=3000)
+        k, out, extra = j
+        p = vlib.sh([os.path.join(bdir, "h_csp"), str(seed * 1000 + k), str(per) if extra is None else "0", out] + (extra or []), timeout=3000)
         return json.loads(p.stdout) if p.returncode == 0 else {"error": p.stderr[-300:] + f" rc={p.returncode}"}
     infos = vlib.pmap(gen, jobs)
     sat = unsat = 0
-    for (k, out), info in zip(jobs, infos):
+    for (k, out, _), info in zip(jobs, infos):
         if "error" in info:
             rep.violation(f"harness-crash:{k}", "h_csp failed (solver crashed?): " + info["error"])
             continue
         sat += info["sat"]
         unsat += info["unsat"]
-    files = [o for (_, o), i in zip(jobs, infos) if "error" not in i]
+    files = [o for (_, o, _), i in zip(jobs, infos) if "error" not in i]
     vlib.linear_check(rep, SPEC, CFG, DIAG, files, wd)
     rep.cov.update({"systems": sat + unsat, "satisfiable": sat, "unsatisfiable": unsat, "solver_runs": 5 * (sat + unsat)})
     rep.cov["evaluations"] = sat + unsat
     rep.cov["distinct_nontrivial"] = sat + unsat
     rep.cov["rule"] = ("seeded random systems of 1..10 variables, ranges inside [-16,47] biased to the window edges and to ranks 1..6, parity flags incl. "
                        "contradictory ones, min/max tightenings, 0..25 constraints (<=, >=, =) incl. chains/cycles mirroring the extended proof kernel; "
-                       "each system is solved under all four PrefVal orders and once with per-variable mixed orders; systems are distinct with overwhelming probability (64-bit seeded generator)")
+                       "plus the complete two-variable family of MC_Csp.tla over the value ranges -2..2 and 4..8 (every 64th system in the quick tier); each system is solved under all four PrefVal orders and once with per-variable mixed orders; systems are distinct with overwhelming probability (64-bit seeded generator)")
     try:
         first = open(files[0]).read().split("\n")[1]
         d = json.loads(first)
